@@ -104,8 +104,8 @@ def rust_val(k, v):
 
 def var_name(i):
     """must match harness/src/pushio.rs var_name"""
-    k = i // 4
-    return ['n%d', 'N%d', 'n%d_', 'n%d '][i % 4] % k
+    k = i // 5
+    return ['n%d', ' n%d', 'N%d', 'n%d ', 'n%d_'][i % 5] % k
 
 
 def rust_chain(cs, spec):
